@@ -50,6 +50,16 @@ def token_groups(chk):
     for d in range(1, 9):
         nest = "[" + nest + " %d]" % d
         subs.append(nest)
+    # small integers at every offset of a growing script (the script's storage grows while it is being written), also inside sub-scripts
+    grow = []
+    for L in range(20, 40):
+        grow.append("[0x" + "ab" * L + " 5 OP_ADD]")
+        grow.append("[0x" + "cd" * L + " -1 0 16]")
+        grow.append("[[0x" + "ef" * (L - 2) + " 7] 1]")
+    groups.append(("growth", grow))
+    # programs longer than any fixed line buffer
+    groups.append(("verylong", ["[" + " ".join(["0x" + "%02x" % (17 * k) * 500 for k in range(1, 6)]) + "]", "[" + " ".join(["0x" + "9a" * 520] * 4 + ["OP_DROP", "OP_1"]) + "]",
+                                "[" + " ".join(["OP_NOP"] * 1200 + ["7"]) + "]", "[" + " ".join(["12345"] * 900) + "]", "[[" + " ".join(["0x" + "11" * 300] * 9) + "] OP_SIZE]"]))
     groups.append(("subscripts", subs))
     pool = [t for _, g in groups for t in g]
     mixes = []
@@ -67,7 +77,7 @@ def run(chk):
     exe = b_.exe("btcc")
     batches = []
     for kind, toks in token_groups(chk):
-        size = 120 if kind not in ("hexlong", "subscripts", "mixes") else 12
+        size = 120 if kind not in ("hexlong", "subscripts", "mixes", "growth", "verylong") else (12 if kind != "verylong" else 1)
         for i in range(0, len(toks), size):
             batches.append((kind, toks[i:i + size]))
     def do(ib):
